@@ -48,7 +48,8 @@ hardware does): `C02_metadata_trip`, through `F64.toU32_ofU32` and `F64.toF32_of
 enumeration order for each AMF0 object the sessions build; the real `HashMap` order is arbitrary; the
 readers of command and status objects look properties up by name, which gives the same answer in every
 permutation (`C02_lookup_any_order`, `C02_connect_any_order`; C04 holds for every order); the metadata
-reader folds over the map and its order independence is checked by correspondence only.  The composition is also decided
+reader folds over the map, and properties with different names update different fields, so it too gives
+the same metadata for every order (`C02_metadata_any_order`).  The composition is also decided
 on the implementation by the `interop` family: real ClientSession ↔ real ServerSession under seeded
 random fragmentation, interleaving and configurations.
 -/
@@ -60,6 +61,7 @@ import Rml.Lemmas.Workflow
 import Rml.Lemmas.WfMeta
 import Rml.Lemmas.AckHop
 import Rml.Lemmas.Order
+import Rml.Lemmas.MetaOrder
 namespace Rml.C02
 open Rml Rml.Chunk Rml.Amf0 Rml.Msgs Rml.Sess
 
@@ -401,5 +403,10 @@ theorem C02_connect_any_order (v : Srv.State) (tid : Nat) (cfg : Cli.Config) (ap
     (hp : (connectProps cfg app).Perm props) :
     Srv.cmdConnect v tid (.object props) = Srv.cmdConnect v tid (.object (connectProps cfg app)) :=
   Order.srv_connect_any_order v tid cfg app props hp
+
+/-- the metadata reader gives the same metadata for every enumeration order of a map with distinct names -/
+theorem C02_metadata_any_order {l l' : List (Bytes × Val)} (hp : l.Perm l') (hn : (l.map Prod.fst).Nodup) :
+    applyMetadata l = applyMetadata l' :=
+  Meta.applyMetadata_perm hp hn
 
 end Rml.C02
